@@ -335,6 +335,7 @@ func init() {
 	// the late sender race; then a second life of the pool drains its deferred list: nothing accepted in
 	// the first life may start in the second.
 	conc.Register("pool-stop-busy-restart", func(p string) *conc.Scenario {
+		m := params(p)
 		// the late sender's time-out is the subject: it may fire at any moment at no cost
 		o := func(o *vrt.Options) { opts(o); o.FreeTimers = true }
 		return &conc.Scenario{Options: o, Body: func() (string, string) {
@@ -351,10 +352,18 @@ func init() {
 			vrt.SetBranching(true)
 			var wg sync.WaitGroup
 			wg.Add(2)
-			vrt.GoNamed("sender", func() { e.p.Send(ctx, e.job(4, nil)); wg.Done() })
-			vrt.GoNamed("gate-opener", func() { vrt.Close(gate); wg.Done() })
-			e.p.Stop()
-			e.stopped.Set(1)
+			if m["main"] == 1 {
+				// the main thread is the late sender: its time-out may fire the moment it has parked, and
+				// running on after that costs nothing — one deviation less than with a spawned sender
+				vrt.GoNamed("stopper", func() { e.p.Stop(); e.stopped.Set(1); wg.Done() })
+				vrt.GoNamed("gate-opener", func() { vrt.Close(gate); wg.Done() })
+				e.p.Send(ctx, e.job(4, nil))
+			} else {
+				vrt.GoNamed("sender", func() { e.p.Send(ctx, e.job(4, nil)); wg.Done() })
+				vrt.GoNamed("gate-opener", func() { vrt.Close(gate); wg.Done() })
+				e.p.Stop()
+				e.stopped.Set(1)
+			}
 			wg.Wait()
 			vrt.Quiesce()
 			if v := e.checkAtMostOnce(); v != "" {
@@ -385,6 +394,36 @@ func init() {
 			}
 			e.p.Stop()
 			e.stopped.Set(1)
+			vrt.Quiesce()
+			if v := e.checkAtMostOnce(); v != "" {
+				return v, outcome(e)
+			}
+			return leak(), outcome(e)
+		}}
+	})
+
+	// stop-deferring: the main thread is a sender whose time-out fires (at no cost) while the worker is
+	// held and the channel is full; Stop runs in another thread. Whatever the sender does after its timed
+	// wait must still be covered by Stop.
+	conc.Register("pool-stop-deferring", func(p string) *conc.Scenario {
+		o := func(o *vrt.Options) { opts(o); o.FreeTimers = true }
+		return &conc.Scenario{Options: o, Body: func() (string, string) {
+			vrt.SetBranching(false)
+			e := newEnv(1, 4)
+			ctx := context.Background()
+			e.p.Run(ctx)
+			gate := make(chan struct{})
+			e.p.Send(ctx, e.job(0, gate))
+			vrt.Quiesce()
+			e.p.Send(ctx, e.job(1, nil))
+			e.p.Send(ctx, e.job(2, nil))
+			vrt.SetBranching(true)
+			var wg sync.WaitGroup
+			wg.Add(2)
+			vrt.GoNamed("stopper", func() { e.p.Stop(); e.stopped.Set(1); wg.Done() })
+			vrt.GoNamed("gate-opener", func() { vrt.Close(gate); wg.Done() })
+			e.p.Send(ctx, e.job(3, nil))
+			wg.Wait()
 			vrt.Quiesce()
 			if v := e.checkAtMostOnce(); v != "" {
 				return v, outcome(e)
